@@ -90,6 +90,12 @@ func (c *AesCipher) Decrypt(cipherTextWithIv []byte) ([]byte, error) {
 		return nil, fmt.Errorf("failed to create GCM: %w", err)
 	}
 
+	// cipher.AEAD.Open panics on a nonce of the wrong size; the IV length is
+	// attacker-controlled (position of the splitter), so it must be checked.
+	if len(iv) != gcm.NonceSize() {
+		return nil, fmt.Errorf("invalid IV length: got %d bytes, want %d", len(iv), gcm.NonceSize())
+	}
+
 	// Decrypt the data
 	plainText, err := gcm.Open(nil, iv, cipherText, nil)
 	if err != nil {
